@@ -158,7 +158,7 @@ def gen_headers(dst, stack_symbolic=False):
 
 SAFETY_CLASSES = ("pointer_dereference", "array_bounds", "overflow", "pointer_arithmetic",
                   "undefined-shift", "division-by-zero", "pointer_primitives", "pointer",
-                  "unwind", "memory-leak", "NaN", "enum-range", "bit_count", "no-body",
+                  "memory-leak", "NaN", "enum-range", "bit_count", "no-body",
                   "float-overflow", "precondition_instance", "recursion")
 
 
@@ -193,6 +193,10 @@ def classify(prop):
         if f.startswith(SRC) or "/src/cbor" in f:
             return "cbor_assert", []
         return "assertion", []
+    if cls == "unwind":
+        # a failed unwinding assertion says "this loop needs more iterations than the proof's bound": the exploration is
+        # incomplete (UNDECIDED), it is not a counterexample to anything
+        return "unwind", []
     if cls in SAFETY_CLASSES:
         # safety obligations generated for the text of the SPECIFICATION itself (a pointer sum inside a loop-invariant
         # predicate, an index expression in a harness assertion) say nothing about the library: they are kept apart
@@ -466,7 +470,11 @@ def run_proof(proof, tier, keep=False, backend=None):
         # a FAILURE of a real obligation is a verdict whatever the cover points say (a change can make a cover point
         # unreachable AND fail obligations: that is a violation, not a vacuity problem); the vacuity guard only
         # protects runs in which everything "passed"
-        any_failure = any(ob["kind"] not in ("cover", "spec_safety") and ob["status"] == "FAILURE" for ob in res["obligations"])
+        any_failure = any(ob["kind"] not in ("cover", "spec_safety", "unwind") and ob["status"] == "FAILURE" for ob in res["obligations"])
+        res["unwind_exceeded"] = [ob["name"] for ob in res["obligations"] if ob["kind"] == "unwind" and ob["status"] == "FAILURE"]
+        if res["unwind_exceeded"] and not any_failure and not degraded:
+            raise Undecided("unwinding bound exceeded (%s): a loop runs longer than this proof's bound - exploration incomplete"
+                            % ", ".join(res["unwind_exceeded"][:3]))
         ncover = 0
         res["unreachable_covers"] = []
         for ob in res["obligations"]:
@@ -483,7 +491,7 @@ def run_proof(proof, tier, keep=False, backend=None):
             raise Undecided("fewer cover points than required (%d < %d)" % (ncover, proof.get("min_covers", 1)))
         # expected failures (canary mode)
         # counterexamples for real failures
-        fails = [ob for ob in res["obligations"] if ob["kind"] not in ("cover", "spec_safety") and ob["status"] != "SUCCESS"]
+        fails = [ob for ob in res["obligations"] if ob["kind"] not in ("cover", "spec_safety", "unwind") and ob["status"] != "SUCCESS"]
         for ob in fails[:proof.get("max_traces", 2)]:
             if ob["status"] == "FAILURE":
                 tr = trace_for(proof, gb, tmp, log, ob["name"], backend=backend)
